@@ -499,7 +499,8 @@ class Peer:
             )
             return message
         except asyncio.TimeoutError:
-            raise Notify(5, 1, 'waited for open too long, we do not like stuck in active') from None
+            # RFC 4271 8.2.2: the timer running out in OpenSent is Hold Timer Expired, no message was received
+            raise Notify(4, 0, 'waited for open too long, we do not like stuck in active') from None
 
     async def _send_ka(self) -> None:
         """Sends KEEPALIVE message using async I/O"""
